@@ -28,6 +28,8 @@ P == 1 .. N
 ContribFaults == { [name |-> "share-replaced",     consistent |-> FALSE, dlen |-> 0],
                    [name |-> "vvec-alter",         consistent |-> FALSE, dlen |-> 0],
                    [name |-> "vvec-short",         consistent |-> FALSE, dlen |-> -1],
+                   [name |-> "vvec-empty",         consistent |-> FALSE, dlen |-> -2],   \* no commitments at all
+                   [name |-> "vvec-double",        consistent |-> FALSE, dlen |-> 2],    \* the vector twice over
                    [name |-> "vvec-long-key",      consistent |-> FALSE, dlen |-> 1],
                    [name |-> "vvec-long-identity", consistent |-> TRUE,  dlen |-> 1],
                    [name |-> "vvec-long-poly",     consistent |-> TRUE,  dlen |-> 1],
